@@ -527,6 +527,75 @@ func c03CFFRuns(r *run.Run) {
 		})
 }
 
+// c03CFFHints: CFF glyphs with stem hints and hint / counter masks at every place a mask may stand: the
+// independent implementation must be able to load the glyph (it counts the stems to know how long a mask is).
+func c03CFFHints(r *run.Run) {
+	r.Explore(explore.Config{Name: "C03.cff-hints"},
+		"CFF fonts written with Font.Write whose glyph 'A' has 0..3 horizontal and 0..3 vertical stem hints and no mask, a hint mask or counter mask as the first command, a hint mask after the first line or after the first contour, or both, with the glyph's own or the default width: container walk, and golang.org/x/image loads every glyph and agrees on the outlines",
+		func(c *explore.Ctx) {
+			nh := c.Choose(4, "hstems")
+			nv := c.Choose(4, "vstems")
+			place := c.Choose(6, "mask placement") // none, hintmask first, cntrmask first, after the first line, after the first contour, first and later
+			if nh+nv == 0 && place != 0 {
+				c.Skip("mask without stems")
+			}
+			f, spec := FontFromChoices(gen.FontOpts{NoMeta: true, NoLayout: true}, gen.KindCFF, 2, 0, 0, 1)
+			ol := *f.Outlines.(*cff.Outlines)
+			ol.Glyphs = append([]*cff.Glyph{}, ol.Glyphs...)
+			gid := spec.Runes['A']
+			old := ol.Glyphs[gid]
+			w := old.Width
+			if c.Bool("own width") {
+				w = 777
+			}
+			g := cff.NewGlyph(old.Name, w)
+			for i := 0; i < nh; i++ {
+				g.HStem = append(g.HStem, float64(20*i), float64(20*i+8))
+			}
+			for i := 0; i < nv; i++ {
+				g.VStem = append(g.VStem, float64(30*i+5), float64(30*i+12))
+			}
+			mask := func(op cff.GlyphOpType, b byte) {
+				g.Cmds = append(g.Cmds, cff.GlyphOp{Op: op, Args: []float64{float64(b)}})
+			}
+			switch place {
+			case 1, 5:
+				mask(cff.OpHintMask, 0xA0)
+			case 2:
+				mask(cff.OpCntrMask, 0xC0)
+			}
+			g.MoveTo(10, 10)
+			g.LineTo(200, 10)
+			if place == 3 {
+				mask(cff.OpHintMask, 0x60)
+			}
+			g.LineTo(100, 300)
+			if place == 4 || place == 5 {
+				mask(cff.OpHintMask, 0x40)
+			}
+			g.MoveTo(50, 50)
+			g.LineTo(80, 50)
+			g.LineTo(60, 90)
+			ol.Glyphs[gid] = g
+			f.Outlines = &ol
+			desc := fmt.Sprintf("%d hstems, %d vstems, mask placement %d, width %v", nh, nv, place, w)
+			c.Sample(func() any { return desc })
+			c.Outcome(desc)
+			buf := &bytes.Buffer{}
+			if _, err := f.Write(buf); err != nil {
+				c.Fail("C03.write-err", "Font.Write / cff hints", "Write failed: %v (%s)", err, desc)
+				return
+			}
+			if _, probs := refsfnt.Walk(buf.Bytes()); len(probs) > 0 {
+				c.Fail("C03.wellformed", "Font.Write / cff hints", "%s (%s)", probs[0], desc)
+				return
+			}
+			if crossCheckXImage(c, "C03", f, spec.Runes, buf.Bytes()) > 0 {
+				c.Nontrivial()
+			}
+		})
+}
+
 // c03StandardNames: TrueType fonts with exactly 258 glyphs named with the 258 standard Macintosh names
 // (the compact version 1 post table is only right when they are in the standard order).
 func c03StandardNames(r *run.Run) {
@@ -689,7 +758,7 @@ func c03Scaled(r *run.Run) {
 
 func c03Inner(r *run.Run) {
 	r.Explore(explore.Config{Name: "C03.inner-layout"},
-		"complete fonts whose inner table layout varies: CFF / CID fonts with copyright lengths 0..400 (offset sizes of the CFF INDEX structures), glyf fonts with every non-empty subset of four cmap subtables holding the same two or three characters in 262 (format 0), 32 / 40 (format 4), 14 / 16 (format 6) and 28 / 40 (format 12) bytes under Macintosh, Unicode and Windows keys (offsets of the encoding records): the file is a well-formed container, the library reads it back, and golang.org/x/image agrees on glyph count, character mapping, advances and outlines",
+		"complete fonts whose inner table layout varies: CFF / CID fonts with copyright lengths 0..400 (offset sizes of the CFF INDEX structures), glyf fonts with every non-empty subset of four cmap subtables holding the same two or three characters (consecutive; with a gap in the glyphs; with a gap of one unmapped code and one unencoded glyph) in 262 (format 0), 32 / 40 (format 4), 14 / 16 (format 6) and 28 / 40 (format 12) bytes under Macintosh, Unicode and Windows keys (offsets of the encoding records): the file is a well-formed container, the library reads it back, and golang.org/x/image agrees on glyph count, character mapping, advances and outlines",
 		func(c *explore.Ctx) {
 			var f *sfnt.Font
 			var spec *gen.FontSpec
@@ -697,15 +766,23 @@ func c03Inner(r *run.Run) {
 			if c.Bool("cmap layouts") {
 				f, spec = FontFromChoices(gen.FontOpts{NoMeta: true, NoLayout: true}, gen.KindGlyf, 2, 0, 0, 1)
 				// all subtables hold the same mapping (the second reader may prefer another subtable than the library)
-				three := c.Bool("three characters")
+				three := c.Choose(3, "three characters")
 				var f0 cmap.Format0
 				f0.Data['A'], f0.Data['B'] = 1, 2
 				four := cmap.Format4{'A': 1, 'B': 2}
 				sixGlyphs := []uint16{1, 2} // format 6 has no encoder in the library: assembled independently
 				twelve := cmap.Format12{'A': 1, 'B': 2}
-				if three {
+				want := map[rune]glyph.ID{'A': 1, 'B': 2, 'C': 0, 'D': 0}
+				switch three {
+				case 1:
 					f0.Data['C'], four['C'], twelve['C'] = 5, 5, 5 // not consecutive: one more segment / group
 					sixGlyphs = []uint16{1, 2, 5}
+					want['C'] = 5
+				case 2:
+					// 'C' is not mapped and glyph 3 has no character: the gap in the codes is as large as the gap in the glyphs
+					f0.Data['D'], four['D'], twelve['D'] = 4, 4, 4
+					sixGlyphs = []uint16{1, 2, 0, 4}
+					want['D'] = 4
 				}
 				six := refcmap.Assemble6('A', sixGlyphs, 0, false)
 				t := cmap.Table{}
@@ -731,13 +808,8 @@ func c03Inner(r *run.Run) {
 				}
 				sort.Strings(keys)
 				desc = "glyf font, cmap " + strings.Join(keys, " ")
-				best, _ := t.GetBest()
-				spec.Runes = map[rune]glyph.ID{}
-				for _, ru := range []rune{'A', 'B', 'C'} {
-					if best != nil {
-						spec.Runes[ru] = best.Lookup(ru)
-					}
-				}
+				// (what the characters map to is known from the construction, whatever subtable a reader prefers)
+				spec.Runes = want
 			} else {
 				kind := gen.KindCFF + c.Choose(2, "CID-keyed")
 				f, spec = FontFromChoices(gen.FontOpts{NoMeta: true, Compact: true}, kind, 2, 0, 0, 0, 1)
@@ -857,6 +929,7 @@ func init() {
 		c03Fonts(r)
 		c03Scaled(r)
 		c03CFFRuns(r)
+		c03CFFHints(r)
 		c03StandardNames(r)
 		c03Inner(r)
 		// one P: the goroutines of the interleaving exploration share per-P caches (sync.Pool), as on a loaded machine
